@@ -105,11 +105,15 @@ def register(gen, T):
         out.append(f"/-- the `format!` string of both candidate loops of `NameMap::build` -/\n"
                    f"def candFormat : String := {lean_str(fmts[0])}\n\n")
         facts = {
-            "keepCondition": r'if symbols\.len\(\) == 1 && used_names\.insert\(name\.clone\(\)\) \{ name\.clone\(\) \} else \{',
+            "claimLoop": r'let mut kept_names = HashSet::new\(\); for \(name, symbols\) in &name_to_symbol_vec \{ if symbols\.len\(\) == 1 && used_names\.insert\(\(\*name\)\.clone\(\)\) \{ kept_names\.insert\(\*name\); \} \}',
+            "keepCondition": r'let name = if kept_names\.contains\(name\) \{ name\.clone\(\) \} else \{',
             "scopeLoopInsert": r'if used_names\.insert\(candidate\.clone\(\)\) \{ used_names_all_scopes\.insert\(candidate\.clone\(\)\); break candidate; \} counter \+= 1;',
             "scopeUsedStartsReserved": r'let mut used_names = reserved_name_set\.clone\(\);',
             "allScopesStartsReserved": r'let mut used_names_all_scopes = reserved_name_set\.clone\(\);',
             "sortedByName": r'name_to_symbol_vec\.sort_by\(\|l, r\| String::cmp\(l\.0, r\.0\)\);',
+            "usageOfAllFunctions": r'let usage = usage_analysis::GlobalUsageAnalysis::calculate\(module\); for id in module\.function_registry\.iter\(\) \{ for used_symbol in usage\.get_usage_for_function\(id\) \{',
+            "usageKinds": r'usage_analysis::UsageSymbol::Function\(id\) => NameSymbol::Function\(id\), usage_analysis::UsageSymbol::GlobalVariable\(id\) => NameSymbol::GlobalVariable\(id\), usage_analysis::UsageSymbol::ConstantBuffer\(_\) => continue,',
+            "usageReserves": r'if let Some\(name_string\) = name_map\.names\.get\(&symbol\) \{ used_names_all_scopes\.insert\(name_string\.name\.clone\(\)\); \}',
             "localTest": r'let picked_name = if used_names_all_scopes\.contains\(name\) \{',
             "localLoop": r'if !all_local_names\.contains\(&candidate\) && used_names_all_scopes\.insert\(candidate\.clone\(\)\) \{ break candidate; \} counter \+= 1;',
             "localKeeps": r'\} else \{ String::from\(name\) \};',
@@ -120,7 +124,7 @@ def register(gen, T):
             want = 2 if k == "counterStartsAtZero" else 1
             out.append(f"/-- source fingerprint `{k}` of NameMap::build found {n} time(s), expected {want} -/\n"
                        f"def fact_{k} : Bool := {'true' if n == want else 'false'}\n\n")
-        order = re.findall(r'name_vec\.push\(NameSymbol::([A-Za-z]+)\(id\)\)', flat)
+        order = re.findall(r'name_vec\.push\(NameSymbol::([A-Za-z]+)\(\*?[a-z_]+\)\)', flat)
         lst("pushOrder", "order in which `NameMap::build` pushes symbol kinds into the per-scope vectors", order)
         out.append(f"/-- third argument of the `NameMap::build` call in hlsl/src/ast_generate.rs -/\n"
                    f"def hlslIntrinsicsReserved : Bool := {build_call(hg, 'hlsl')}\n\n")
